@@ -33,7 +33,7 @@ REQUIRED_CLASSES = ["pending-at-body-end", "grandchild", "body-fails-with-pendin
 
 def judge(prog, run, res, out: Outcome, inject, body_fails):
     tag = "cancel" if inject is not None else ("raise" if body_fails else "return")
-    if inject is not None and res["outcome"] != "cancelled" and any(e["ev"] == "task_end" and e.get("how") == "failed" for e in run.log):
+    if inject is not None and res.get("in_group_exit") and any(e["ev"] == "task_end" and e.get("how") == "failed" for e in run.log):
         # the symptom of known finding KF1 (C07): the cancellation itself was lost because a spawned task had failed
         tag = "cancel-lost-with-failed-child"
     classes = set()
